@@ -1161,6 +1161,31 @@ fn bump(mut funds: Vec<(String, u128)>, denom: &str, by: u128, up: bool) -> Vec<
     funds
 }
 
+/// decode a libFuzzer input into a tape (little-endian words; missing bytes are zero)
+pub fn tape_from_bytes(data: &[u8]) -> Tape {
+    let word = |i: usize| -> u32 {
+        let mut b = [0u8; 4];
+        for (k, x) in b.iter_mut().enumerate() {
+            *x = *data.get(4 * i + k).unwrap_or(&0);
+        }
+        u32::from_le_bytes(b)
+    };
+    let mut world = [0u32; WORLD_WORDS];
+    for (i, w) in world.iter_mut().enumerate() {
+        *w = word(i);
+    }
+    let n_ops = data.len().saturating_sub(4 * WORLD_WORDS) / (4 * OP_WORDS);
+    let mut ops = Vec::with_capacity(n_ops.min(160));
+    for k in 0..n_ops.min(160) {
+        let mut op = [0u32; OP_WORDS];
+        for (i, w) in op.iter_mut().enumerate() {
+            *w = word(WORLD_WORDS + k * OP_WORDS + i);
+        }
+        ops.push(op);
+    }
+    Tape { world, ops }
+}
+
 // ---------------------------------------------------------------- running a tape
 
 /// Execute a history tape under the observer of `prop`; returns the runner with its
